@@ -20,17 +20,11 @@ theorem hdr1_table : ∀ (id : Fin 16) (l : Fin 16),
 
 def Item.ok1 : Item → Bool
   | .pad => true
-  | .elem id d => id.toNat ≤ 15 && 1 ≤ d.length && d.length ≤ 16 && !(id == 0 && d.length == 1)
+  | .elem id d => id.toNat ≤ 14 && 1 ≤ d.length && d.length ≤ 16 && !(id == 0 && d.length == 1)
 
 def Item.ok2 : Item → Bool
   | .pad => true
   | .elem id d => id != 0 && d.length ≤ 255
-
-/-- bytes of a one-byte block the parser leaves unread: everything after the first id-15 header byte -/
-def left1 : List Item → Nat → Nat
-  | [], _ => 0
-  | .pad :: r, k => left1 r k
-  | .elem id d :: r, k => if id == 15 then d.length + (body1 r).length + k else left1 r k
 
 theorem parseOneByte_pads (k : Nat) : parseOneByte (rep k 0) = .ok ([], 0) := by
   induction k with
@@ -76,39 +70,48 @@ theorem hdr1_facts (id : UInt8) (d : Bytes) (hid : id.toNat ≤ 15) (h1 : 1 ≤ 
     body2 (.elem id d :: r) = id :: d.length.toUInt8 :: (d ++ body2 r) := by
   simp [body2, Item.enc2]
 
-@[simp] theorem elems1_nil : elems1 [] = [] := rfl
-@[simp] theorem elems1_pad (r : List Item) : elems1 (.pad :: r) = elems1 r := by
-  simp [elems1, List.takeWhile, Item.isReserved, elems]
-theorem elems1_elem (id : UInt8) (d : Bytes) (r : List Item) :
-    elems1 (.elem id d :: r) = if id == 15 then [] else { id := id, payload := d } :: elems1 r := by
-  by_cases h : id == 15 <;> simp [elems1, List.takeWhile, Item.isReserved, elems, h]
+/-- the reserved-id byte: never a pad, high nibble 15 -/
+theorem stop_table : ∀ (n : Fin 16),
+    let b : UInt8 := (15 * 16 + n.val).toUInt8
+    (b == 0) = false ∧ (b >>> 4) = 15 := by
+  decide +kernel
 
-/-- the one-byte walk over an encoded item list followed by `k` alignment pads -/
-theorem parseOneByte_body (items : List Item) (k : Nat) (h : items.all Item.ok1 = true) :
-    parseOneByte (body1 items ++ rep k 0) = .ok (elems1 items, left1 items k) := by
+/-- the one-byte walk stops at the reserved id and leaves everything behind it unread -/
+theorem parseOneByte_stop (n : UInt8) (rest : Bytes) (k : Nat) (hn : n.toNat < 16) :
+    parseOneByte (stopBytes (some (n, rest)) ++ rep k 0) = .ok ([], rest.length + k) := by
+  obtain ⟨a, b⟩ := stop_table ⟨n.toNat, hn⟩
+  simp only at a b
+  simp only [stopBytes, List.cons_append]
+  rw [parseOneByte]
+  simp only [a, b, Bool.false_eq_true, ↓reduceIte, beq_self_eq_true, List.length_append, rep, List.length_replicate]
+
+/-- the one-byte walk over an encoded item list followed by any tail on which the walk finds no
+    further element (alignment pads, or a reserved id and what follows it) -/
+theorem parseOneByte_body (items : List Item) (tail : Bytes) (left : Nat) (h : items.all Item.ok1 = true)
+    (ht : parseOneByte tail = .ok ([], left)) :
+    parseOneByte (body1 items ++ tail) = .ok (elems items, left) := by
   induction items with
-  | nil => simpa [left1] using parseOneByte_pads k
+  | nil => simpa [elems] using ht
   | cons it r ih =>
     simp only [List.all_cons, Bool.and_eq_true] at h
     obtain ⟨hit, hr⟩ := h
     cases it with
     | pad =>
-      simp only [body1_pad, List.cons_append, elems1_pad, left1]
+      simp only [body1_pad, List.cons_append, elems]
       rw [parseOneByte]
       simpa using ih hr
     | elem id d =>
       simp only [Item.ok1, Bool.and_eq_true, decide_eq_true_eq, Bool.not_eq_true'] at hit
       obtain ⟨⟨⟨hid, h1⟩, h16⟩, hnz⟩ := hit
-      obtain ⟨fa, fb, fc⟩ := hdr1_facts id d hid h1 h16
-      simp only [body1_elem, List.cons_append, List.append_assoc]
+      obtain ⟨fa, fb, fc⟩ := hdr1_facts id d (by omega) h1 h16
+      simp only [body1_elem, List.cons_append, List.append_assoc, elems]
       rw [parseOneByte]
       simp only [fa, fb, fc, hnz, Bool.false_eq_true, ↓reduceIte]
-      rw [elems1_elem, left1]
-      by_cases h15 : id == 15
-      · simp [h15, Nat.add_assoc, rep]
-      · simp only [h15, Bool.false_eq_true, ↓reduceIte]
-        have hlen : ¬ (d ++ (body1 r ++ rep k 0)).length < d.length := by simp
-        simp only [hlen, ↓reduceIte, List.drop_left, List.take_left, ih hr]
+      have h15 : (id == 15) = false := by
+        rw [Bool.eq_false_iff]; intro hc; simp at hc; rw [hc] at hid; simp at hid
+      simp only [h15, Bool.false_eq_true, ↓reduceIte]
+      have hlen : ¬ (d ++ (body1 r ++ tail)).length < d.length := by simp
+      simp only [hlen, ↓reduceIte, List.drop_left, List.take_left, ih hr]
 
 /-- the two-byte walk -/
 theorem parseTwoByte_body (items : List Item) (k : Nat) (h : items.all Item.ok2 = true) :
@@ -134,37 +137,17 @@ theorem parseTwoByte_body (items : List Item) (k : Nat) (h : items.all Item.ok2 
       have hlen : ¬ (d ++ (body2 r ++ rep k 0)).length < d.length := by simp
       simp only [hlen, ↓reduceIte, List.drop_left, List.take_left, ih hr]
 
-theorem left1_noReserved (items : List Item) (k : Nat) (h : items.any Item.isReserved = false) :
-    left1 items k = 0 := by
-  induction items with
-  | nil => rfl
-  | cons it r ih =>
-    simp only [List.any_cons, Bool.or_eq_false_iff] at h
-    cases it with
-    | pad => simpa [left1] using ih h.2
-    | elem id d =>
-      have : (id == 15) = false := by simpa [Item.isReserved] using h.1
-      simp [left1, this, ih h.2]
-
-theorem elems1_noReserved (items : List Item) (h : items.any Item.isReserved = false) :
-    elems1 items = elems items := by
-  have : items.takeWhile (fun x => !x.isReserved) = items := by
-    induction items with
-    | nil => rfl
-    | cons it r ih =>
-      simp only [List.any_cons, Bool.or_eq_false_iff] at h
-      simp [List.takeWhile, h.1, ih h.2]
-  simp [elems1, this]
+def stopOk : Option (UInt8 × Bytes) → Bool
+  | none => true
+  | some (n, _) => n.toNat < 16
 
 def blockOk : ExtBlock → Bool
-  | .oneByte items => items.all Item.ok1 && (body1 items).length ≤ maxBody
-  | .twoByte items => items.all Item.ok2 && (body2 items).length ≤ maxBody
+  | .oneByte items stop => items.all Item.ok1 && stopOk stop && (body1 items ++ stopBytes stop).length ≤ maxBody
+  | .twoByte a items => a == 0 && items.all Item.ok2 && (body2 items).length ≤ maxBody
   | .legacy p ws => p != 0xBEDE && p != 0x1000 && ws.length % 4 == 0 && ws.length ≤ maxBody
 
-/-- unread bytes of the block (non-zero only in the reserved-id region) -/
-def blockUnread : ExtBlock → Nat
-  | .oneByte items => left1 items (padTo4 (body1 items).length)
-  | _ => 0
+/-- unread bytes of the block (non-zero only in the reserved-id region) = `ExtBlock.ignored` -/
+def blockUnread (b : ExtBlock) : Nat := b.ignored
 
 theorem padTo4_facts (n : Nat) : (n + padTo4 n) % 4 = 0 ∧ padTo4 n < 4 := by
   unfold padTo4; omega
@@ -174,22 +157,36 @@ theorem parseExtBlock_body (b : ExtBlock) (h : blockOk b = true) :
     parseExtBlock b.profile (b.body ++ rep (padTo4 b.body.length) 0) =
       .ok (b.elements, (b.body ++ rep (padTo4 b.body.length) 0).length - blockUnread b) := by
   cases b with
-  | oneByte items =>
+  | oneByte items stop =>
     simp only [blockOk, Bool.and_eq_true] at h
-    simp only [parseExtBlock, ExtBlock.profile, ExtBlock.body, profileOneByte, beq_self_eq_true, ↓reduceIte,
-      parseOneByte_body items _ h.1, ExtBlock.elements, blockUnread]
-  | twoByte items =>
-    simp only [blockOk, Bool.and_eq_true] at h
-    have : ((0x1000 : UInt16) == profileOneByte) = false := by decide
-    simp only [parseExtBlock, ExtBlock.profile, ExtBlock.body, this, profileTwoByte, beq_self_eq_true, ↓reduceIte,
-      Bool.false_eq_true, parseTwoByte_body items _ h.1, ExtBlock.elements, blockUnread, Nat.sub_zero]
+    obtain ⟨⟨hi, hs⟩, _⟩ := h
+    cases stop with
+    | none =>
+      have := parseOneByte_body items (rep (padTo4 (body1 items).length) 0) 0 hi (parseOneByte_pads _)
+      simp only [parseExtBlock, ExtBlock.profile, ExtBlock.body, profileOneByte, beq_self_eq_true, ↓reduceIte,
+        stopBytes, List.append_nil, this, ExtBlock.elements, blockUnread, ExtBlock.ignored, Nat.sub_zero]
+    | some st =>
+      obtain ⟨n, rest⟩ := st
+      simp only [stopOk, decide_eq_true_eq] at hs
+      have := parseOneByte_body items (stopBytes (some (n, rest)) ++ rep (padTo4 (body1 items ++ stopBytes (some (n, rest))).length) 0) _ hi
+        (parseOneByte_stop n rest _ hs)
+      simp only [parseExtBlock, ExtBlock.profile, ExtBlock.body, profileOneByte, beq_self_eq_true, ↓reduceIte,
+        List.append_assoc, this, ExtBlock.elements, blockUnread, ExtBlock.ignored]
+  | twoByte a items =>
+    simp only [blockOk, Bool.and_eq_true, beq_iff_eq] at h
+    obtain ⟨⟨ha, hi⟩, _⟩ := h
+    subst ha
+    have e1 : ((0x1000 + (0 : UInt8).toNat).toUInt16 == profileOneByte) = false := by decide
+    have e2 : ((0x1000 + (0 : UInt8).toNat).toUInt16 == profileTwoByte) = true := by decide
+    simp only [parseExtBlock, ExtBlock.profile, ExtBlock.body, e1, e2, ↓reduceIte,
+      Bool.false_eq_true, parseTwoByte_body items _ hi, ExtBlock.elements, blockUnread, ExtBlock.ignored, Nat.sub_zero]
   | legacy p ws =>
     simp only [blockOk, Bool.and_eq_true, bne_iff_ne, ne_eq, beq_iff_eq, decide_eq_true_eq] at h
     obtain ⟨⟨⟨h1, h2⟩, h3⟩, _⟩ := h
     have e1 : (p == profileOneByte) = false := by simpa [profileOneByte] using h1
     have e2 : (p == profileTwoByte) = false := by simpa [profileTwoByte] using h2
     have e3 : padTo4 ws.length = 0 := by unfold padTo4; omega
-    simp [parseExtBlock, ExtBlock.profile, ExtBlock.body, e1, e2, e3, ExtBlock.elements, blockUnread, rep]
+    simp [parseExtBlock, ExtBlock.profile, ExtBlock.body, e1, e2, e3, ExtBlock.elements, blockUnread, ExtBlock.ignored, rep]
 
 /-! ### the header -/
 
@@ -246,23 +243,26 @@ def wireUnread (w : Wire) : Nat := match w.ext with | some b => blockUnread b | 
 def hdrOf (r : Header) (w : Wire) : Header :=
   { w.toPacket.header with extProfile := match w.ext with | some b => b.profile | none => r.extProfile }
 
-theorem left1_le (items : List Item) (k : Nat) : left1 items k ≤ (body1 items).length + k := by
-  induction items with
-  | nil => simp [left1]
-  | cons it r ih =>
-    cases it with
-    | pad => simp only [left1, body1_pad, List.length_cons]; omega
-    | elem id d =>
-      simp only [left1, body1_elem, List.length_cons, List.length_append]
-      split <;> omega
+theorem blockUnread_le (b : ExtBlock) : blockUnread b ≤ (b.body ++ rep (padTo4 b.body.length) 0).length := by
+  cases b with
+  | oneByte items stop =>
+    cases stop with
+    | none => simp [blockUnread, ExtBlock.ignored]
+    | some st =>
+      obtain ⟨n, rest⟩ := st
+      simp only [blockUnread, ExtBlock.ignored, ExtBlock.body, stopBytes, List.length_append, List.length_cons, rep,
+        List.length_replicate]
+      omega
+  | twoByte a items => simp [blockUnread, ExtBlock.ignored]
+  | legacy p ws => simp [blockUnread, ExtBlock.ignored]
 
 theorem extPart_encode (h : Header) (n : Nat) (b : ExtBlock) (rest : Bytes) (hb : blockOk b = true) :
     extPart h n (b.encode ++ rest) =
       .ok ({ h with extProfile := b.profile, exts := b.elements }, n + b.encode.length - blockUnread b) := by
   have hbody : b.body.length ≤ maxBody := by
     cases b with
-    | oneByte items => simp only [blockOk, Bool.and_eq_true, decide_eq_true_eq] at hb; exact hb.2
-    | twoByte items => simp only [blockOk, Bool.and_eq_true, decide_eq_true_eq] at hb; exact hb.2
+    | oneByte items stop => simp only [blockOk, Bool.and_eq_true, decide_eq_true_eq] at hb; exact hb.2
+    | twoByte a items => simp only [blockOk, Bool.and_eq_true, decide_eq_true_eq] at hb; exact hb.2
     | legacy p ws =>
       simp only [blockOk, Bool.and_eq_true, decide_eq_true_eq] at hb
       exact hb.2
@@ -279,11 +279,7 @@ theorem extPart_encode (h : Header) (n : Nat) (b : ExtBlock) (rest : Bytes) (hb 
     have : b.body.length + padTo4 b.body.length = (b.body ++ rep (padTo4 b.body.length) 0).length := by simp [rep]
     rw [this, List.take_left]
   simp only [hl, ↓reduceIte, ht, parseExtBlock_body b hb]
-  have e : (b.body ++ rep (padTo4 b.body.length) 0).length ≥ blockUnread b := by
-    cases b with
-    | oneByte items => simpa [blockUnread, ExtBlock.body, rep] using left1_le items _
-    | twoByte items => simp [blockUnread]
-    | legacy p ws => simp [blockUnread]
+  have e : (b.body ++ rep (padTo4 b.body.length) 0).length ≥ blockUnread b := blockUnread_le b
   simp only [List.length_cons]
   congr 2
   omega
